@@ -31,9 +31,29 @@ CONSTANTS Pad,       \* background bytes after the image (n ranges up to size + 
 VARIABLES n,         \* the size argument
           cor,       \* the overwrites applied to the image (sequence of 0..2)
           vw,        \* the view: message at V0 | a group instance of the image
-          res        \* result of the call (done = FALSE before Check)
+          res,       \* result of the call (done = FALSE before Check)
+          tab        \* ghost: static tables (a memo like SbeImage's, never changes)
 
-fvars == <<sh, mode, buf, pc, last, memo, n, cor, vw, res>>
+fvars == <<sh, mode, buf, pc, last, memo, n, cor, vw, res, tab>>
+
+\* TLC re-derives SbeImage's LDimSize / LDimOff / LDimW / LLenW / HSize (built by
+\* RECURSIVE layout operators) at every reference (measured: 0.1-0.5 ms each).
+\* The walk below therefore takes them from a ghost variable initialised once.
+\* They are the same tables: TablesAreSbeImage is checked as an invariant.
+Ends(li) == {LFields[li][k].off + LFields[li][k].size : k \in 1 .. Len(LFields[li])}
+CEDef(li) == IF Ends(li) = {} THEN 0 ELSE CHOOSE m \in Ends(li) : \A x \in Ends(li) : x <= m
+TabDef == [dimsize |-> LDimSize, dimoff |-> LDimOff, dimw |-> LDimW, lenw |-> LLenW,
+           hsize |-> HSize, hbloff |-> HBlOff, hblw |-> HBlW,
+           ce |-> ([li \in 1 .. NL |-> CEDef(li)]) \o <<>>,
+           flat |-> ([li \in 1 .. NL |-> IsFlat(LDef[li])]) \o <<>>,
+           ng |-> ([li \in 1 .. NL |-> tab.ng[li]]) \o <<>>,
+           nd |-> ([li \in 1 .. NL |-> Len(LDef[li].data)]) \o <<>>]
+TabInit == tab = TabDef
+TDimSize(gli) == tab.dimsize[gli]
+TLenW(li, d) == tab.lenw[li][d]
+TRootBL(b) == Rd(b, V0 + tab.hbloff, tab.hblw)
+TGroupBL(b, gli, ga) == Rd(b, ga + tab.dimoff[gli][1], tab.dimw[gli][1])
+TGroupN(b, gli, ga) == Rd(b, ga + tab.dimoff[gli][2], tab.dimw[gli][2])
 
 ASSUME Pad \in Nat /\ Pairs \in BOOLEAN /\ PairMod \in Nat
 
@@ -54,25 +74,24 @@ Take(st, k, why) == IF k <= st.rem
                     ELSE Fail(st, why)
 Touch(st, at0, w) == [st EXCEPT !.hi = IF at0 + w > @ THEN at0 + w ELSE @]
 
-\* compiled extent of the fields of level li: what an accessor-based walk of
-\* the block would touch
-Ends(li) == {LFields[li][k].off + LFields[li][k].size : k \in 1 .. Len(LFields[li])}
-CE(li) == IF Ends(li) = {} THEN 0 ELSE CHOOSE m \in Ends(li) : \A x \in Ends(li) : x <= m
+\* compiled extent of the fields of level li (tab.ce): what an accessor-based
+\* walk of the block would touch
+CE(li) == tab.ce[li]
 MarkShort(st, li, bl) == IF bl < CE(li) THEN [st EXCEPT !.short = TRUE] ELSE st
 
 FitsData(b, st, li, d) ==
   IF ~st.ok THEN st
-  ELSE IF LLenW[li][d] > st.rem THEN Fail(st, "dlen")
-  ELSE Take(Touch(st, st.a, LLenW[li][d]), LLenW[li][d] + Rd(b, st.a, LLenW[li][d]), "data")
+  ELSE IF TLenW(li, d) > st.rem THEN Fail(st, "dlen")
+  ELSE Take(Touch(st, st.a, TLenW(li, d)), TLenW(li, d) + Rd(b, st.a, TLenW(li, d)), "data")
 
 RECURSIVE FitsGroupAt(_, _, _), FitsEntries(_, _, _, _, _), FitsMem(_, _, _, _)
 \* members k.. of a level instance whose block has been paid: groups, then data
 FitsMem(b, st, li, k) ==
-  IF ~st.ok \/ k > Len(LDef[li].groups) + Len(LDef[li].data) THEN st
-  ELSE IF k <= Len(LDef[li].groups)
+  IF ~st.ok \/ k > tab.ng[li] + tab.nd[li] THEN st
+  ELSE IF k <= tab.ng[li]
        THEN CHOOSE r \in {FitsMem(b, s, li, k + 1) : s \in {FitsGroupAt(b, st, LChild[li][k])}} : TRUE
        ELSE CHOOSE r \in {FitsMem(b, s, li, k + 1) :
-                            s \in {FitsData(b, st, li, k - Len(LDef[li].groups))}} : TRUE
+                            s \in {FitsData(b, st, li, k - tab.ng[li])}} : TRUE
 
 FitsFlat(s, gli, bl, cnt) ==
   IF bl = 0 \/ cnt = 0
@@ -89,15 +108,15 @@ FitsEntries(b, s, gli, bl, cnt) ==
 \* the group gli whose dimension starts at st.a
 FitsGroupAt(b, st, gli) ==
   IF ~st.ok THEN st
-  ELSE IF LDimSize[gli] > st.rem THEN Fail(st, "dim")
+  ELSE IF TDimSize(gli) > st.rem THEN Fail(st, "dim")
   ELSE CHOOSE r \in
-         {IF IsFlat(LDef[gli]) THEN FitsFlat(s, gli, bl, cnt) ELSE FitsEntries(b, s, gli, bl, cnt) :
-            s \in {MarkShort(Take(Touch(Touch(st, st.a + LDimOff[gli][1], LDimW[gli][1]),
-                                        st.a + LDimOff[gli][2], LDimW[gli][2]),
-                                  LDimSize[gli], "dim"),
-                             gli, OpGroupBL(b, gli, st.a))},
-            bl \in {OpGroupBL(b, gli, st.a)},
-            cnt \in {OpGroupN(b, gli, st.a)}} : TRUE
+         {IF tab.flat[gli] THEN FitsFlat(s, gli, bl, cnt) ELSE FitsEntries(b, s, gli, bl, cnt) :
+            s \in {MarkShort(Take(Touch(Touch(st, st.a + tab.dimoff[gli][1], tab.dimw[gli][1]),
+                                        st.a + tab.dimoff[gli][2], tab.dimw[gli][2]),
+                                  TDimSize(gli), "dim"),
+                             gli, TGroupBL(b, gli, st.a))},
+            bl \in {TGroupBL(b, gli, st.a)},
+            cnt \in {TGroupN(b, gli, st.a)}} : TRUE
 
 Result(st, nn) == [done |-> TRUE, valid |-> st.ok, size |-> IF st.ok THEN nn - st.rem ELSE 0,
                    hi |-> st.hi, steps |-> st.steps, why |-> st.why, short |-> st.short, zf |-> st.zf]
@@ -106,12 +125,12 @@ NoRes == [done |-> FALSE, valid |-> FALSE, size |-> 0, hi |-> 0, steps |-> 0, wh
 
 \* message view at V0
 FitsMsgSt(b, nn) ==
-  IF HSize > nn THEN Fail(St0(V0, nn), "header")
+  IF tab.hsize > nn THEN Fail(St0(V0, nn), "header")
   ELSE CHOOSE r \in
          {IF ~s.ok THEN s ELSE FitsMem(b, s, 1, 1) :
-            s \in {MarkShort(Take(Take(Touch(St0(V0, nn), V0 + HBlOff, HBlW), HSize, "header"),
-                                  OpRootBL(b), "rootblock"),
-                             1, OpRootBL(b))}} : TRUE
+            s \in {MarkShort(Take(Take(Touch(St0(V0, nn), V0 + tab.hbloff, tab.hblw), tab.hsize, "header"),
+                                  TRootBL(b), "rootblock"),
+                             1, TRootBL(b))}} : TRUE
 Fits(b, nn) == CHOOSE r \in {Result(st, nn) : st \in {FitsMsgSt(b, nn)}} : TRUE
 
 \* group view: the group gli whose dimension starts at ga
@@ -129,27 +148,27 @@ SAdd(b, a, k) == IF a >= INF(b) \/ k >= INF(b) - a THEN INF(b) ELSE a + k
 SMul(b, c, k) == IF c = 0 \/ k = 0 THEN 0 ELSE IF c > INF(b) \div k THEN INF(b) ELSE c * k
 
 SDataEnd(b, li, d, da) ==
-  IF da + LLenW[li][d] > Len(b) THEN INF(b)
-  ELSE SAdd(b, da, LLenW[li][d] + Rd(b, da, LLenW[li][d]))
+  IF da + TLenW(li, d) > Len(b) THEN INF(b)
+  ELSE SAdd(b, da, TLenW(li, d) + Rd(b, da, TLenW(li, d)))
 
 RECURSIVE SGroupEnd(_, _, _), SEntriesEnd(_, _, _, _, _), SMemEnd(_, _, _, _)
 SMemEnd(b, li, e, k) ==
-  IF e >= INF(b) \/ k > Len(LDef[li].groups) + Len(LDef[li].data) THEN e
+  IF e >= INF(b) \/ k > tab.ng[li] + tab.nd[li] THEN e
   ELSE CHOOSE r \in {SMemEnd(b, li, e2, k + 1) :
-         e2 \in {IF k <= Len(LDef[li].groups) THEN SGroupEnd(b, LChild[li][k], e)
-                 ELSE SDataEnd(b, li, k - Len(LDef[li].groups), e)}} : TRUE
+         e2 \in {IF k <= tab.ng[li] THEN SGroupEnd(b, LChild[li][k], e)
+                 ELSE SDataEnd(b, li, k - tab.ng[li], e)}} : TRUE
 SEntriesEnd(b, gli, ea, bl, cnt) ==
   IF cnt = 0 \/ ea >= INF(b) THEN ea
   ELSE CHOOSE r \in {SEntriesEnd(b, gli, e2, bl, cnt - 1) :
                        e2 \in {SMemEnd(b, gli, e1, 1) : e1 \in {SAdd(b, ea, bl)}}} : TRUE
 SGroupEnd(b, gli, ga) ==
-  IF ga + LDimSize[gli] > Len(b) THEN INF(b)
-  ELSE IF IsFlat(LDef[gli])
-       THEN SAdd(b, ga + LDimSize[gli], SMul(b, OpGroupN(b, gli, ga), OpGroupBL(b, gli, ga)))
-       ELSE SEntriesEnd(b, gli, ga + LDimSize[gli], OpGroupBL(b, gli, ga), OpGroupN(b, gli, ga))
+  IF ga + TDimSize(gli) > Len(b) THEN INF(b)
+  ELSE IF tab.flat[gli]
+       THEN SAdd(b, ga + TDimSize(gli), SMul(b, TGroupN(b, gli, ga), TGroupBL(b, gli, ga)))
+       ELSE SEntriesEnd(b, gli, ga + TDimSize(gli), TGroupBL(b, gli, ga), TGroupN(b, gli, ga))
 SMsgEnd(b) ==
-  IF V0 + HSize > Len(b) THEN INF(b)
-  ELSE CHOOSE r \in {SMemEnd(b, 1, e, 1) : e \in {SAdd(b, V0 + HSize, OpRootBL(b))}} : TRUE
+  IF V0 + tab.hsize > Len(b) THEN INF(b)
+  ELSE CHOOSE r \in {SMemEnd(b, 1, e, 1) : e \in {SAdd(b, V0 + tab.hsize, TRootBL(b))}} : TRUE
 
 StructEnd(b, v) == IF v.kind = "message" THEN SMsgEnd(b) ELSE SGroupEnd(b, v.gli, v.ga)
 
@@ -196,7 +215,7 @@ ViewsOf(s, gis) ==
 \* fields inside the extent of view v (a group view is reached by navigating
 \* the bytes before it, which therefore stay well-formed)
 InView(v, f) == f.off >= v.ga /\ f.off < v.ga + v.dsize
-SameHeader(f1, f2) == f1.kind = "gbl" /\ f2.kind = "gnum" /\ f2.off - LDimOff[f2.li][2] = f1.off - LDimOff[f1.li][1]
+SameHeader(f1, f2) == f1.kind = "gbl" /\ f2.kind = "gnum" /\ f2.off - tab.dimoff[f2.li][2] = f1.off - tab.dimoff[f1.li][1]
                       /\ f1.li = f2.li
 PairKept(i, j) == PairMod > 0 /\ (i * 7 + j * 13) % PairMod = 0
 CorsOf(v, flds) ==
@@ -215,6 +234,7 @@ ApplyCor(b, c, k) == IF k > Len(c) THEN b ELSE ApplyCor(Put(b, c[k].off, c[k].by
 (* The machine *)
 FInit ==
   /\ MemoInit
+  /\ TabInit
   /\ mode = "fits" /\ pc = 0
   /\ last = [op |-> "init", li |-> 0, ip |-> <<>>, k |-> 0]
   /\ res = NoRes
@@ -232,7 +252,7 @@ FInit ==
 Check ==
   /\ ~res.done
   /\ res' = IF vw.kind = "message" THEN Fits(buf, n) ELSE FitsGroup(buf, vw.gli, vw.ga, n)
-  /\ UNCHANGED <<sh, mode, buf, pc, last, memo, n, cor, vw>>
+  /\ UNCHANGED <<sh, mode, buf, pc, last, memo, n, cor, vw, tab>>
 
 FNext == Check
 FSpec == FInit /\ [][FNext]_fvars
@@ -261,6 +281,18 @@ FitsExact ==
 
 FitsBoundedWork == res.done => res.steps <= KK * (n + 1)
 
+\* the ghost tables are SbeImage's (evaluated once per image, not per n)
+TablesAreSbeImage == (n = 0 /\ cor = <<>> /\ ~res.done) => tab = TabDef
+
+\* StructEnd is View.tla's operational size wherever that is defined (all reads
+\* inside the buffer, hence no huge operand): OpMsgSize / OpGroupSize.
+\* (independent of n: evaluated once per buffer and view)
+StructIsOperational ==
+  (n = 0 /\ res.done) =>
+    \E e \in {StructEnd(buf, vw)} :
+      e < INF(buf) => IF vw.kind = "message" THEN OpMsgSize(buf) = e - V0
+                      ELSE OpGroupSize(buf, vw.gli, vw.ga) = e - vw.ga
+
 ----------------------------------------------------------------------------
 (* Vector emission *)
 OpName(o) == o.kind \o "=" \o o.cls
@@ -268,7 +300,7 @@ CorClass == IF cor = <<>> THEN "none"
             ELSE IF Len(cor) = 1 THEN OpName(cor[1])
             ELSE OpName(cor[1]) \o "+" \o OpName(cor[2])
 \* where n lies relative to the structure
-NClass(e) == IF n < (IF vw.kind = "message" THEN HSize ELSE LDimSize[vw.gli]) THEN "lt-header"
+NClass(e) == IF n < (IF vw.kind = "message" THEN tab.hsize ELSE tab.dimsize[vw.gli]) THEN "lt-header"
              ELSE IF e >= INF(buf) THEN "unbounded"
              ELSE IF vw.ga + n < e THEN "lt-size"
              ELSE IF vw.ga + n = e THEN "eq-size"
